@@ -331,6 +331,28 @@ pub fn run(tier: &str) -> Result<Report, String> {
         }
     }
     rep.set("single_formula_shared_vs_unshared_cases", json!(n_single));
+    // cache hits that need a renaming, on graphs whose network variables have different numbers of spare variables: formulae with
+    // one-free-variable sub-formulae duplicated under different names (duplicate templates, benchmark shapes) must give the result
+    // of the uniform graph (which the other parts hold against single / unshared evaluation and the oracle)
+    {
+        let mut n_non = 0u64;
+        for b in nets.iter().filter(|b| ["con2", "asy2", "cyc3"].contains(&b.name.as_str())) {
+            let nm = crate::formulas::Names::user(&[b.spec.vars[0].clone(), b.spec.vars[b.n - 1].clone()]);
+            let mut fs = templates(&nm, false, if tier == "quick" { 4 } else { 8 });
+            fs.extend(duplicate_templates(2, if tier == "quick" { 3 } else { 4 }, true, false));
+            let texts: Vec<String> = fs.iter().filter(|f| f.qdepth() >= 2).map(|f| f.show(&nm)).collect();
+            let depth = |t: &str| crate::refparser::parse_str(t, false).map(|x| x.qdepth()).unwrap_or(99);
+            n_non += texts.len() as u64;
+            for w in nonuniform_check(b, &texts, &depth) {
+                if w.starts_with("harness:") {
+                    return Err(w);
+                }
+                rep.violations.push(Violation { case: json!({"kind": "none"}), what: format!("on {}: {w}", b.name), size: 30 });
+            }
+        }
+        rep.evaluations += n_non * 4 * 3;
+        rep.add_count("renaming_cache_hits_on_graphs_with_per_variable_spare_counts", n_non);
+    }
     // caches that outlive a call: two-step histories over look-alike graphs, plain and extended probes
     {
         let units: Vec<_> = nets.iter().filter(|b| b.name == "con2").cloned().collect();
